@@ -1656,8 +1656,16 @@ lydjson_subtree_r(struct lyd_json_ctx *lydctx, struct lyd_node *parent, struct l
         if (!name_len && !prefix_len && !parent) {
             LOGVAL(ctx, LYVE_SYNTAX_JSON,
                     "Invalid metadata format - \"@\" can be used only inside anydata, container or list entries.");
-            r = LY_EVALID;
-            LY_DPARSER_ERR_GOTO(r, rc = r, lydctx, cleanup);
+            rc = LY_EVALID;
+            if (lydctx->val_opts & LYD_VALIDATE_MULTI_ERROR) {
+                /* there is no node the metadata could belong to, skip the invalid data */
+                if ((r = lydjson_data_skip(lydctx->jsonctx))) {
+                    rc = r;
+                }
+                r = lyjson_ctx_next(lydctx->jsonctx, &status);
+                LY_CHECK_ERR_GOTO(r, rc = r, cleanup);
+            }
+            goto cleanup;
         } else if (!name_len && !prefix_len) {
             /* parent's metadata without a name - use the schema from the parent */
             attr_node = parent;
